@@ -66,6 +66,8 @@ func shapeSupply(base string, shape int, dsse bool) *gen.Supply {
 		return gen.NewSupply(base, 1, 1, dsse)
 	case 1:
 		return gen.NewSupply(base, 2, 1, dsse)
+	case 3:
+		return gen.NewSupply(base, 2, 0, dsse) // no inspections at all
 	}
 	s := gen.NewSupply(base, 2, 1, dsse)
 	nb, na := gen.Wide()
@@ -227,6 +229,7 @@ type prepared struct {
 	expect       string // accept | reject | either | never-forged
 	skip         string
 	forgedMarker string
+	alterLater   func() // applied to the loaded object after a first, accepted verification
 }
 
 // ---- wrapper-document alterations: a second copy of the content member ------------------------------------
@@ -425,7 +428,7 @@ func prepare(c *mcx.Ctx, cs Case) prepared {
 		if p.skip == "" {
 			load()
 		}
-	case "content-mem", "content-file":
+	case "content-mem", "content-file", "content-mem-after-verification":
 		alt := cloneLayout(sup.Layout)
 		found := false
 		for _, a := range gen.Alterations(&alt) {
@@ -439,6 +442,15 @@ func prepare(c *mcx.Ctx, cs Case) prepared {
 			return p
 		}
 		p.expect = "reject"
+		if cs.Kind == "content-mem-after-verification" {
+			// the object is verified as loaded (accepted), then its content is changed in place, then verified again
+			if !load() {
+				return p
+			}
+			mb := p.md.(*intoto.Metablock)
+			p.alterLater = func() { mb.Signed = alt }
+			return p
+		}
 		if cs.Kind == "content-mem" && !cs.DSSE {
 			if !load() {
 				return p
@@ -554,6 +566,15 @@ func execute(c *mcx.Ctx, cs Case, p prepared) (obs, sig string, orders int64) {
 		wr = "dsse"
 	}
 	tag := fmt.Sprintf("%s|entry=%d", wr, cs.Entry)
+	if p.alterLater != nil {
+		_, err := gen.VerifyAt(c.Work, cs.Entry, p.md, p.keys, p.sup.LinkDir, nil, nil)
+		c.Impl(1)
+		p.sup.MarkersPresent()
+		if err != nil {
+			return "rejected before any alteration: " + err.Error(), fmt.Sprintf("C01|honest-layout-rejected|%s|%s|%s", cs.Kind, altClass(cs), tag), 1
+		}
+		p.alterLater()
+	}
 	ex.Explore(func(ch *mcx.Chooser) {
 		var errs []string
 		if p.history == "after-genuine" {
@@ -643,7 +664,7 @@ func execute(c *mcx.Ctx, cs Case, p prepared) (obs, sig string, orders int64) {
 
 func altClass(cs Case) string {
 	a := cs.Alt
-	if cs.Kind == "content-mem" || cs.Kind == "content-file" {
+	if cs.Kind == "content-mem" || cs.Kind == "content-file" || cs.Kind == "content-mem-after-verification" {
 		// field class without indices and keys
 		out := []rune{}
 		depth := 0
@@ -693,9 +714,9 @@ func run(c *mcx.Ctx) {
 			c.Sample(map[string]any{"case": cs, "expected": p.expect, "observed": obs, "orders_of_key_loop": orders})
 		}
 	}
-	shapes := []int{0, 1}
+	shapes := []int{0, 1, 3}
 	if c.Thorough() {
-		shapes = []int{0, 1, 2}
+		shapes = []int{0, 1, 2, 3}
 	}
 	all := []string{"rsa2048", "p256", "ed5"}
 	for _, dsse := range []bool{false, true} {
@@ -716,6 +737,9 @@ func run(c *mcx.Ctx) {
 								continue // the envelope keeps the signed bytes, there is no in-memory content to alter
 							}
 							do(Case{Shape: shape, DSSE: dsse, Entry: entry, S: []string{"ed5"}, V: []string{"ed5"}, Kind: kind, Alt: a.Name})
+						}
+						if !dsse {
+							do(Case{Shape: shape, DSSE: dsse, Entry: entry, S: []string{"ed5"}, V: []string{"ed5"}, Kind: "content-mem-after-verification", Alt: a.Name})
 						}
 					}
 				}
@@ -760,8 +784,8 @@ func replay(c *mcx.Ctx, raw json.RawMessage) (string, string) {
 func init() {
 	mcx.Register(&mcx.Driver{
 		ID: "C01", Run: run, Replay: replay,
-		Rule: "full product: layout shape (1 step; 2 steps; thorough: + root CAs and certificate constraints - each with a marker inspection) x {legacy, DSSE} x {InTotoVerify, InTotoVerifyWithDirectory} x [ all 8 signer subsets of {RSA, ECDSA, Ed25519} x all 16 verifier subsets of those plus a foreign key, unaltered; " +
-			"every single-point alteration of the signed content found by a reflective walk (string changed, slice element dropped/duplicated/appended, map entry dropped/added, int +-1), applied to the in-memory object and to the file under the old signatures; " +
+		Rule: "full product: layout shape (1 step; 2 steps; 2 steps without any inspection; thorough: + root CAs and certificate constraints - each with a marker inspection) x {legacy, DSSE} x {InTotoVerify, InTotoVerifyWithDirectory} x [ all 8 signer subsets of {RSA, ECDSA, Ed25519} x all 16 verifier subsets of those plus a foreign key, unaltered; " +
+			"every single-point alteration of the signed content found by a reflective walk (string changed, slice element dropped/duplicated/appended, map entry dropped/added, int +-1), applied to the in-memory object (also after a first, accepted verification of that object) and to the file under the old signatures; " +
 			"signature-list alterations (entry dropped, first/middle/last byte corrupted, signature of another layout by the same key, emptied, key ids / signatures of two entries swapped, duplicate entry, empty list); supplied-key alterations (same id with foreign material, extra key that did not sign, map key differs, private half supplied, no key map at all); wrapper-document alterations (a second content member - signed / payload - with forged step-less content and an inspection of its own, named like the genuine one up to letter case: 3 spellings of the genuine x 3 of the forged x before/after) ]; " +
 			"each case under every order of the layout-key loop and with a complete, an empty and a garbage link directory. non-trivial = at least one verifier key or an alteration. states = cases, transitions = verifications.",
 		Assumptions: []string{
